@@ -638,6 +638,17 @@ func (c *Ctx) ghost(st *State, name string) Term {
 
 func (c *Ctx) setGhost(st *State, name string, v Term) {
 	g := c.ghostEntry(name)
+	if v.S == "pnil" {
+		// the untyped nil literal takes the ghost's sort
+		switch g.Sort {
+		case SIface:
+			v = Term{"niliface", SIface}
+		case SSlice:
+			v = Term{"nilslice", SSlice}
+		case SFn:
+			v = Term{"fn_nil", SFn}
+		}
+	}
 	if g.Sort != v.Sort {
 		evalFail("ghost $%s has sort %s, assigned %s", name, g.Sort, v.Sort)
 	}
